@@ -42,14 +42,14 @@ def geomRep (B : Matrix (Fin n) (Fin n) R) (i : Fin n) : Matrix (Fin n) (Fin n) 
   refl ((2 : R) • B) i
 
 /-- `CoxeterGroup.cartan_matrix(parameters)`: start from `2 * bilinear_form()`; for every index
-with a *negative* label whose parameter is specified (non-zero; a missing dictionary key counts
+with a non-positive (infinite) label whose parameter is specified (non-zero; a missing dictionary key counts
 as unspecified) overwrite that entry, and also the transposed entry unless that one is specified
 itself.  (`P` is the parameter array; the dictionary format denotes the same data.) -/
 def cartanMatrix [DecidableEq R] (B : Matrix (Fin n) (Fin n) R) (M : Matrix (Fin n) (Fin n) ℤ)
     (P : Matrix (Fin n) (Fin n) R) : Matrix (Fin n) (Fin n) R :=
   fun i j =>
-    if M i j < 0 ∧ P i j ≠ 0 then P i j
-    else if M j i < 0 ∧ P j i ≠ 0 ∧ P i j = 0 then P j i
+    if M i j ≤ 0 ∧ P i j ≠ 0 then P i j
+    else if M j i ≤ 0 ∧ P j i ≠ 0 ∧ P i j = 0 then P j i
     else ((2 : R) • B) i j
 
 /-- the homomorphism composed in `canonical_representation`: `utils.invert(mat.T)` -/
@@ -64,11 +64,11 @@ noncomputable def canonRep (B : Matrix (Fin n) (Fin n) R) (i : Fin n) : Matrix (
 *not* obtained by inverting `W`) -/
 def conjMat (W Winv M : Matrix (Fin n) (Fin n) R) : Matrix (Fin n) (Fin n) R := Winv * M * W
 
-/-- the guard of the repaired `cartan_representation(diagonalize=True)`:
-`np.allclose(Winv @ W, identity, rtol=0, atol=tol)`; when it fails the code raises `GeometryError`
-(a degenerate form has no diagonalising change of basis) -/
-def diagGuard {K : Type*} [CommRing K] [LinearOrder K] (tol : K) (W Winv : Matrix (Fin n) (Fin n) K) : Bool :=
-  decide (∀ i j, |(Winv * W - 1) i j| ≤ tol)
+/-- the guard of the repaired `cartan_representation(diagonalize=True)`: `diagonalize_form` marks a null
+direction of the form by a zero column of `W`; the code raises `GeometryError` when there is one
+(`not np.abs(W).any(axis=-2).all()`): a degenerate form has no diagonalising change of basis -/
+def diagGuard {K : Type*} [Zero K] [DecidableEq K] (W : Matrix (Fin n) (Fin n) K) : Bool :=
+  decide (∀ j, ∃ i, W i j ≠ 0)
 
 /-- `CoxeterGroup.hyperbolic_rep` on a generator: the geometric representation composed with
 `conjMat` for the diagonalising pair of the cosine form -/
